@@ -5,6 +5,7 @@ import (
 	"errors"
 	"fmt"
 	"io"
+	"log/slog"
 	"net/http"
 	"strconv"
 	"strings"
@@ -376,6 +377,10 @@ func (w *e2eWorld) generate() {
 	w.server.OnSession = func(rw http.ResponseWriter, r *http.Request) ([]string, bool) {
 		i, _ := strconv.Atoi(r.Header.Get("X-Sim-Client"))
 		return w.clients[i].sessTopics, true
+	}
+	if ch.Chance(1, 4, "server logger") {
+		lg := slog.New(slog.NewTextHandler(io.Discard, nil))
+		w.server.Logger = func(*http.Request) *slog.Logger { return lg }
 	}
 	nPubs := ch.Range(1, 3, "publishers")
 	budget := 12
